@@ -102,6 +102,22 @@ def replay_records(r, prefix):
     return recs
 
 
+def node_order_variants(rec):
+    n = len(rec["nodes"])
+    if n < 3:
+        return []
+    out = []
+    for tag, perm in (("rev", list(range(n - 1, -1, -1))), ("rot", [1] + [0] + list(range(2, n))[::-1] if n > 3 else [1, 2, 0])):
+        # perm[k] = old index of the node inserted k-th
+        new_pos = {old: k for k, old in enumerate(perm)}
+        v = dict(rec)
+        v["id"] = "%s~%s" % (rec["id"], tag)
+        v["nodes"] = [rec["nodes"][old] for old in perm]
+        v["edges"] = [dict(e, **{"from": new_pos[e["from"] - 1] + 1, "to": new_pos[e["to"] - 1] + 1}) for e in reversed(rec["edges"])]
+        out.append(v)
+    return out
+
+
 def gen(ctx, cfg, prefix, tlc_seed=None):
     r = ctx.tlc("MC_LockFile", cfg, workers=1, env=UTF8, tlc_seed=tlc_seed, count=False, xss="512m")
     return replay_records(r, prefix)
@@ -155,6 +171,12 @@ def run(ctx):
         pool = core + adv + big
     if not core or not adv or not big:
         raise ToolError("a replay pool is empty: %s" % sizes)
+    # The abstract graph has no node order, a forc_pkg::Graph has one (insertion = fetch order), and the
+    # enumerated records list nodes in a canonical order. Every record with >= 3 nodes is therefore also
+    # replayed with its nodes (and edges) inserted in two other orders; the abstract graph -- and with it
+    # the expectation ToLock(g) / FromLock -- is the same.
+    pool = pool + [v for r in pool for v in node_order_variants(r)]
+    sizes["with_node_order_variants"] = len(pool)
     inp = os.path.join(ctx.work, "graphs.ndjson")
     write_ndjson(inp, pool)
 
